@@ -74,8 +74,13 @@ def build_lanelet(r):
     return Lanelet(arr(r["left"]), arr(r["center"]), arr(r["right"]), r["id"], **kw)
 
 
+def sign_enum_class(country):
+    from commonroad.scenario.traffic_sign import TrafficSignIDZamunda
+    return TrafficSignIDCountries.get(country, TrafficSignIDZamunda)
+
+
 def sign_enum(country, name):
-    return TrafficSignIDCountries[country][name]
+    return sign_enum_class(country)[name]
 
 
 def build_sign(r):
@@ -369,18 +374,19 @@ def add_signs_lights(draw, net, ids, profile=None, country="DEU"):
     profile = profile or {}
     lanelets = net["lanelets"]
     lids = [l["id"] for l in lanelets]
-    sign_names = profile.get("sign_names") or [m.name for m in TrafficSignIDCountries[country]]
+    sign_names = profile.get("sign_names") or [m.name for m in sign_enum_class(country)]
     for _ in range(draw(st.integers(0, 3))):
         sid = ids.new()
         refs = draw(st.lists(st.sampled_from(lids), min_size=1, max_size=3, unique=True))
-        n_el = draw(st.integers(1, 2))
+        n_el = draw(st.integers(1, min(2, len(sign_names))))
         names = draw(st.lists(st.sampled_from(sign_names), min_size=n_el, max_size=n_el, unique=True))
         elements = [{"country": country, "name": nm,
                      "values": draw(st.lists(st.sampled_from(["30", "50", "120", "2.5", "abc"]), max_size=2,
                                              unique=True))} for nm in names]
         net["signs"].append({"id": sid, "elements": elements, "position": draw(point(300)),
                              "first_occurrence": draw(st.lists(st.sampled_from(lids), max_size=2, unique=True)),
-                             "virtual": draw(st.sampled_from([None, False, True]))})
+                             "virtual": draw(st.sampled_from([None, False, True] if profile.get("virtual_true", True)
+                                                             else [None, False]))})
         for l in lanelets:
             if l["id"] in refs:
                 l.setdefault("signs", []).append(sid)
@@ -392,7 +398,7 @@ def add_signs_lights(draw, net, ids, profile=None, country="DEU"):
         net["lights"].append({"id": tid, "position": draw(point(300)), "cycle": cyc,
                               "offset": draw(st.one_of(st.none(), st.integers(0, 30))),
                               "active": draw(st.sampled_from([None, True, False])),
-                              "direction": draw(st.one_of(st.none(), st.sampled_from(LIGHT_DIRECTIONS)))})
+                              "direction": draw(st.one_of(st.none(), st.sampled_from(profile.get("light_directions", LIGHT_DIRECTIONS))))})
         for l in lanelets:
             if l["id"] in refs:
                 l.setdefault("lights", []).append(tid)
